@@ -1239,7 +1239,7 @@ func main() {
 	run := ev.NewRun("C18", "model_checking")
 	counts := []uint32{1, 2, 3, 4}
 	depth := 4
-	budget := 45 * time.Second
+	budget := 55 * time.Second
 	maxN := uint32(4096)
 	standaloneN := uint32(64)
 	big := []uint32{5, 7, 64, 1000, 4096}
@@ -1343,7 +1343,7 @@ func main() {
 		"InitialShardCount = 0 (division by zero in GenerateShards) is outside the quantifier (shard counts 1..N)",
 	}
 	pprof.StopCPUProfile()
-	os.Exit(run.Finish("BFS over all sequences up to max_depth of a 42-operation alphabet (add namespace n1..n3 x shards 1..4 x rf, remove namespace, add/remove server s1..s4, completion of one shard deletion, leader election metadata write, delivery of the current assignments to a client that skipped the intermediate ones) from initial clusters of 1..4 servers; after every step the published assignments of every configured namespace must partition [0,2^32), ids must be unique/never reused, and three real client shard managers (every update / skipping / fresh) must route all range-boundary hashes (+-1), 24 boundary keys and 64 fixed keys to the published owner. Plus GenerateShards(base,n) for every n up to generate_shards_max_n, the standalone dispatcher, large shard counts through the coordinator, and all load-ratio tie orders for the creation of an anti-affinity namespace."))
+	os.Exit(run.Finish("BFS (searches listed in e1_searches) over all sequences of config changes (add namespace n1..n3 x shards 1..4 x rf, remove namespace, add/remove server s1..s4, completion of one/all shard deletions, leader election metadata write, delivery of the current assignments to a client that skipped the intermediate ones) from initial clusters of 1..4 servers; after every step the published assignments of every configured namespace must partition [0,2^32), ids must be unique/never reused, and three real client shard managers (every update / skipping / fresh) must route all range-boundary hashes (+-1), 24 boundary keys and 64 fixed keys to the published owner. Plus GenerateShards(base,n) for every n up to generate_shards_max_n, the standalone dispatcher, large shard counts through the coordinator, and all load-ratio tie orders for the creation of an anti-affinity namespace."))
 }
 
 func doReplay(path string, specFor func(int, string) seqx.Spec) int {
